@@ -9,5 +9,5 @@ python3 tools/extract.py
 (cd lean && lake build $(python3 -c "import json;o=json.load(open('obligations.json'));print(' '.join(sorted({m for k,v in o.items() if v.get('theorems') or v.get('partial') for m in (v.get('modules') or ['Qwt.Props.'+k])})))"))
 (cd harness && cargo build --offline --target-dir target/pf --release)
 (cd harness && cargo build --offline --target-dir target/pf --profile verifdbg)
-(cd harness && cargo build --offline --target-dir target/nopf --release --no-default-features)
+(cd harness && cargo build --offline --target-dir target/nopf --release --no-default-features --features utilsq,syncassert)
 echo setup-done
